@@ -225,7 +225,7 @@ PROPS["C17"] = {
     "unproved": ["path_model_ok: forall bitmaps with dark top-left, pathOK bm (path bm)"],
     "assumptions": ["bitmap dimensions fit i16 (documented precondition of path())"],
 }
-NONTRIVIAL["C17"] = lambda r: r.split()[0] in ("path", "pixels", "unicode") and int(r.split()[2].split(":")[0]) >= 2
+NONTRIVIAL["C17"] = lambda r: r.split()[0] in ("path", "pathm", "pixels", "unicode") and int(r.split()[2].split(":")[0]) >= 2
 
 RS_RULE = "cases: received words for all 48 sizes: C03: zero codeword + every single error position (sampled per size in quick, all in thorough), random codewords with <= t errors per block in every region (anywhere, data part, EC part, tail), exactly t errors in every block, bursts, all double-error position pairs of 10x10 (values sampled); C09/C05: t+1..t+3 errors in one block, heavy damage, random words, words whose first j syndromes vanish, unit words, 20000 random words of the smallest sizes; non-trivial = distinct non-zero received words"
 PROPS["C03"] = {
@@ -463,3 +463,9 @@ PROPS["C10"]["explanation"] += (" Theorem search_sound (DM/Props/C10.lean): when
 PROPS["C10"]["level_text"] = ("Exploration with a witness-producing oracle whose soundness is a theorem (every report carries a stream of a listed smaller capacity that the reference decoder maps to the input);"
     " planner optimality itself is not proved and does not hold (DESIGN.md, C10 known findings).")
 PROPS["C10"]["unproved"] = ["planner_optimal: no listed symbol of smaller capacity admits a conformant encoding (false for the pinned planner: see the known findings K-A, K-B*); completeness of the search"]
+
+# ---- C17: path() itself is modelled (Model/Path.lean) and compared segment by segment ----
+PROPS["C17"]["explanation"] += (" Model correspondence: DM/Model/Path.lean models Bitmap::path() itself - bits_to_edge_graph, edge_left with its hint, follow / can_step, the Hierholzer loop with the"
+    " splice positions and the drained list of alternatives, compress_path - with the `expect` an explicit panic outcome; on every bitmap of the sweep the model must return exactly the"
+    " implementation's segment list (M lines), so the certified checker is also run, implicitly, on the model's output.")
+PROPS["C17"]["technique"] = "certified checker (Lean theorem: accepted => even-odd fill = bitmap) run on every implementation output + Lean model of path() compared segment by segment"
